@@ -3,6 +3,18 @@
 PENDING = "check not built yet in this session (work in progress; see DESIGN.md section 4)"
 
 CLAIMS = {
+    "C01": {
+        "text": "Provenance (def-use chains with operator paths) of the values EOF._fit_algorithm stores: explained variance is "
+        "exactly one **2 and one division by (sample size - 1) of the decomposed matrix, total variance is var(ddof=1) along the "
+        "sample dimension of that same (augmented) matrix; V is VT conjugate-transposed in both SVD wrappers, reconstruction "
+        "contracts with conj(components) and projection with plain components (EOF, SparsePCA, ExtendedEOF); the ascending svds "
+        "branch re-sorts U, s, VT by one descending argsort and every truncation keeps a prefix; scores=U*s, norms=s, components=V; "
+        "Hilbert and Extended variants reach the same routine.",
+        "note": "Necessary structural clauses only. Not decided: orthonormality, eigenvalue equality with an independent solver, "
+        "Eckart-Young optimality, accuracy of the randomised path, Hilbert transform arithmetic. Trusted: np.linalg.svd descending / "
+        "svds ascending order, default ddof=0.",
+        "technique": "def-use provenance with operator paths (exponent/denominator classification, conjugation parity), slice-shape checks",
+    },
     "C07": {
         "text": "Every module, function and call site of xeofs is enumerated: no dimension is addressed through the "
         "literals 'sample'/'feature' (constants, keywords, attribute access), no callee with a literal dimension "
